@@ -50,6 +50,39 @@ def one(ctx, kp, letter, alt, octave):
             return
         if out2 != out1:
             ctx.violation('second-export-differs', f'exporting {s!r} twice gives {out1!r} then {out2!r}', case)
+    # the export direction: a pitch equal to the imported one, however it was obtained (constructed with the internal '+' or the
+    # documented '#' spelling of sharps, renamed through the name setter, read by the American importer) is written the same way, twice
+    sharp = exp_obj[0].replace('+', '#')
+    routes = [('AgnosticPitch(internal name)', lambda: kp.AgnosticPitch(exp_obj[0], octave)),
+              ('AgnosticPitch(name with #)', lambda: kp.AgnosticPitch(sharp, octave))]
+
+    def renamed():
+        r_ = kp.AgnosticPitch('C', octave)
+        r_.name = sharp
+        return r_
+    routes.append(('name setter', renamed))
+    if 0 <= octave <= 9 and abs(alt) <= 2:
+        routes.append(('AmericanPitchImporter', lambda: kp.AmericanPitchImporter().import_pitch(f'{sharp}{octave}')))
+    for rname, make in routes:
+        ctx.ev()
+        ctx.mon('export_direction_cases')
+        try:
+            q_ = make()
+        except Exception as e:  # noqa  (a route that does not accept this pitch is not the codec's business)
+            ctx.mon(f'export_direction_route_refused:{rname}')
+            continue
+        if (q_.name, q_.octave) != exp_obj:
+            ctx.mon(f'export_direction_route_gives_another_pitch:{rname}')
+            continue
+        try:
+            o1_ = kp.HumdrumPitchExporter().export_pitch(q_)
+            o2_ = kp.HumdrumPitchExporter().export_pitch(q_)
+        except Exception as e:
+            ctx.violation('export-wrong', f'{s!r} via {rname}: export raised {type(e).__name__}: {e}', dict(case, route=rname))
+            continue
+        if o1_ != s or o2_ != s or (q_.name, q_.octave) != exp_obj:
+            ctx.violation('export-wrong', f'{s!r} via {rname}: the pitch {exp_obj} (equal to the imported one) is written {o1_!r} then {o2_!r}',
+                          dict(case, route=rname))
     # American exporter must not alter the object either (read-only use of the same pitch object)
     q = kp.AgnosticPitch(exp_obj[0], exp_obj[1])
     ctx.ev()
